@@ -26,6 +26,9 @@ class Link:
         self.stop = False
         self.bytes_forwarded = 0
         self.segments = 0
+        self.ticks = 0             # completed scheduler iterations (liveness of this thread, see Session.idle)
+        self.error = None          # exception that ended the scheduler thread (harness fault, never a verdict)
+        self.trace = []            # last scheduler actions
         self.a.on_send = lambda data, gen: self._enqueue(self.p, data)
         self.p.on_send = lambda data, gen: self._enqueue(self.a, data)
         self.thread = threading.Thread(target=stuck.harness_thread(self._run), daemon=True, name="harness-link")
@@ -60,13 +63,26 @@ class Link:
             with self.lock:
                 self.queue = keep + self.queue
 
+    def _log(self, what):
+        self.trace.append((round(time.monotonic(), 4), what))
+        del self.trace[:-40]
+
     def _run(self):
+        try:
+            self._loop()
+        except BaseException as exc:  # noqa: BLE001 - recorded for the check, which reports a harness fault
+            import traceback
+            self.error = "".join(traceback.format_exception(exc))[-1500:]
+
+    def _loop(self):
         while not self.stop:
+            self.ticks += 1
             self._flush()
             a_up, p_up = self.a.link_up, self.p.link_up
             if self.connected:
                 if not a_up or not p_up:
                     self._flush()
+                    self._log(f"teardown a_up={a_up} p_up={p_up}")
                     if a_up:
                         self.a.peer_close()
                     if p_up:
@@ -78,16 +94,19 @@ class Link:
                     with self.lock:
                         self.queue = []
                     self.connected = False
+                    self._log(f"torn down a_up={self.a.link_up} p_up={self.p.link_up}")
             elif self.a.enabled and self.p.enabled and not a_up and not p_up:
                 # TCP connect: passive side accepts, active side's connect() returns (order chosen by the seed)
                 first, second = (self.p, self.a) if self.rng.random() < 0.5 else (self.a, self.p)
                 with self.lock:
                     self.connections += 1
                     self.connected = True
+                self._log(f"connect #{self.connections} first={'a' if first is self.a else 'p'}")
                 first.connect(wait=False)
                 if self.rng.random() < 0.5:
                     time.sleep(self.rng.random() * 0.002)
                 second.connect(wait=False)
+                self._log("connected both")
             time.sleep(0.0005)
 
     def close(self):
